@@ -3,7 +3,9 @@ From Coq Require Import List NArith ZArith Bool.
 From GoPdf.Base Require Import Bytes Res.
 From GoPdf.Gen Require Gen_Consts Gen_C15.
 From GoPdf.C01 Require Import Lex Obj Num Names Strings Format Wf.
-From GoPdf.C15 Require Import Content State ContentSpec ContentProofs ImageProofs ValueProofs CanonLink StateProofs.
+From GoPdf.C01 Require Import BufSrc.
+From GoPdf.C15 Require Import Content State ContentSpec ContentProofs ImageProofs ValueProofs CanonLink StateProofs
+  TokenSrc TokenSrcProofs.
 Import ListNotations.
 Open Scope N_scope.
 
@@ -50,8 +52,10 @@ Print Assumptions split.
 (* Inline images: BI dict ID data EI is read back as the %image% operator with the same
    dictionary (normal form, writer's key order) and the same data, under the guard wf_image_full:
    /W, /H acceptable; keys regular bytes without '#'; values any operands of the domain nested at
-   most 10 deep; no ASCII filter; and the data can be framed - /L is
-   present and equals the data length, or the data contains no EOL "EI" delimiter. *)
+   most 10 deep; behind an ASCII filter (ASCIIHexDecode/ASCII85Decode, last of the chain) the data
+   does not start with white space (ISO 32000 8.9.7: white space after ID is not data for these
+   filters) - empty data is covered; and the data can be framed - /L is present and equals the
+   data length, or the data contains no EOL "EI" delimiter. *)
 Theorem inline_rt : forall L d data,
   limits_ok L = true -> wf_image_full L d data = true ->
   cscan L (op_format (image_op d data)) = Some [image_op (scanned_dict d) data].
@@ -82,6 +86,13 @@ Print Assumptions inline_rt_refuted.
 (* the two former inline-image defects (fixed), as instances: an empty array inside the
    dictionary is read back as an empty array, and ASCII85 data that starts with "%" or is empty
    is read back *)
+(* ASCII-filter images inside the guard: data starting with "%", and no data at all *)
+Example inline_rt_hyp_ascii :
+  wf_image_full cstd_limits [(k_W, OInt 1); (k_H, OInt 1); (k_F, OName [65; 56; 53])] [37; 97; 126; 62] = true /\
+  wf_image_full cstd_limits [(k_W, OInt 1); (k_H, OInt 1); (k_F, OArr [OName [65; 72; 120]])] [] = true /\
+  wf_image_full cstd_limits [(k_W, OInt 1); (k_H, OInt 1); (k_F, OName [65; 56; 53])] [32; 97; 126; 62] = false.
+Proof. vm_compute. repeat split; reflexivity. Qed.
+
 Example inline_empty_array_instance :
   cscan cstd_limits (op_format (image_op [(k_W, OInt 1); (k_H, OInt 1); ([68], OArr [])] [120]))
   = Some [image_op [([68], OArr []); (k_H, OInt 1); (k_W, OInt 1)] [120]].
@@ -117,3 +128,29 @@ Example balanced_hyp :
   all_ok (map sop_of_name [[113]; [66; 84]; [66; 77; 67]; [109]]) = true /\
   run_ops (init_state true) (map sop_of_name [[113]; [66; 84]; [66; 77; 67]; [84; 100]]) <> None.
 Proof. split; [reflexivity | vm_compute; discriminate]. Qed.
+
+(* Buffering transparency of ScanToken's two-byte look-ahead ("<<" / "<", ">>" / ">"): over the
+   content scanner's buffered source (C01/BufSrc.v with full = false: one Read per refill, s.err
+   latched, PeekN looping over refill, compaction) the dispatch sees the same two bytes and leaves
+   the same input as over the plain byte list - for every buffer of two bytes or more (stream.go
+   allocates 512), every state of the buffer, every chunking of the reader (read sizes >= 1) and
+   either way of reporting io.EOF.  The general statement for arbitrary readers is
+   C01.buffering_transparent_any. *)
+Theorem lookahead_transparent : forall BUF st,
+  (2 <= BUF)%nat -> binv BUF st ->
+  let (h, st') := run_buf BUF false token_head_p st in
+  token_head (view st) = (h, view st') /\ binv BUF st'.
+Proof. exact lookahead_transparent_lemma. Qed.
+Print Assumptions lookahead_transparent.
+
+(* ... and that dispatch is the one of the list model's ScanToken *)
+Theorem scan_token_dispatch : forall L s, scan_token L s = scan_token_via_head L s.
+Proof. exact scan_token_head. Qed.
+Print Assumptions scan_token_dispatch.
+
+(* "<" and "<" arrive in different reads, the second together with io.EOF, buffer of 2 bytes *)
+Example lookahead_split_ex :
+  fst (run_buf 2 false token_head_p (bstart 2 [[60]; [60]] true)) = HDictOpen /\
+  fst (run_buf 2 false token_head_p (bstart 2 [[60]] false)) = HHex /\
+  fst (run_buf content_buf false token_head_p (bstart content_buf [[62]; [62; 32]] false)) = HDictClose.
+Proof. vm_compute. repeat split; reflexivity. Qed.
